@@ -125,6 +125,10 @@ pub struct RespRec {
     pub kept: Option<Vec<u8>>,
     /// For a replayed datagram: the wire record the original answered.
     pub replay_of_wire: Option<usize>,
+    /// Size of the datagram as delivered to the receive socket (before buffer clipping).
+    pub dgram_len: usize,
+    /// The quoted datagram differs from the probe as sent in (source address, source port).
+    pub rewritten: (bool, bool),
 }
 
 /// What became of one attempt to send a probe.
@@ -237,6 +241,9 @@ pub struct World {
     /// (response id, sequence it names) of forged never-sent responses.
     pub forged_seqs: Vec<(usize, u16)>,
     pub round_first_seq: Option<(u32, u16)>,
+    /// First failure reported by the passive sniffer.
+    pub sniff_failure: Option<(String, String)>,
+    pub sniff_views: u64,
 }
 
 pub const ERRNO_NONE: i32 = 0;
@@ -279,6 +286,8 @@ impl World {
             pending_shared: None,
             forged_seqs: Vec::new(),
             round_first_seq: None,
+            sniff_failure: None,
+            sniff_views: 0,
         }
     }
 
@@ -504,6 +513,9 @@ impl World {
     pub fn deliver(&mut self, mut rec: RespRec) -> usize {
         let id = self.resps.len();
         rec.id = id;
+        if let Some(b) = &rec.bytes {
+            rec.dgram_len = b.len();
+        }
         if rec.bytes.is_some() {
             self.rx_seq += 1;
             self.rx.push(Reverse((rec.t_arrive, self.rx_seq, id)));
@@ -942,6 +954,11 @@ impl World {
         buf[..n].copy_from_slice(&bytes[..n]);
         if bytes.len() > buf.len() {
             self.counters.add("reach.datagram_truncated_by_buffer", 1);
+        }
+        if self.sc.sniff && self.sniff_failure.is_none() {
+            let rep = crate::sniff::sniff_received(&buf[..n], self.sc.tracer.v6);
+            self.sniff_views += rep.views;
+            self.sniff_failure = rep.failure;
         }
         self.hand_over(rid);
         self.exit();
